@@ -337,6 +337,12 @@ where
     fn equiv_amount(&self, unit: Self::UnitType) -> AmountT {
         if self.unit() == unit {
             self.amount()
+        } else if self.unit().scale() < unit.scale() {
+            // Converting to a larger unit: divide by the inverse ratio, which
+            // is > 1, instead of multiplying with a ratio < 1, because a
+            // fixed-point amount type retains only few significant digits
+            // of a tiny ratio.
+            self.amount() / unit.ratio(&self.unit())
         } else {
             self.unit().ratio(&unit) * self.amount()
         }
